@@ -19,6 +19,8 @@ func init() {
 	reg("C15", "C15.R5", "E2", "k8s multi-line accumulators are reset together", 1, ruleAccumulatorsResetTogether)
 	reg("C15", "C15.R6", "E2", "Propagate clears the holder's busy mark before re-entry (same rule as C02.R8)", 1, rulePropagateResetsBusy)
 	reg("C15", "C15.R7", "E2", "an action stays busy (Hold/Collapse) only while its joining flag is true", 1, ruleBusyOnlyWhileJoining)
+	reg("C15", "C15.R8", "E6", "the joined value left in the event does not alias the reusable join buffer (same rule as C13.A)", 1, ruleActionBufferViews)
+	reg("C15", "C15.R9", "E2+E3", "a line put into the stream cannot be overwritten by the time-out event (same rule as C02.R7)", 1, ruleStreamPutFIFO)
 }
 
 func ruleReceiverLocalState(c *Ctx, r *Rule) {
